@@ -38,7 +38,7 @@ M = {
  "M31_grid_endpoint": dict(file="exponax/_utils.py", old="grid_1d = jnp.linspace(0, domain_extent, num_points, endpoint=False)", new="grid_1d = jnp.linspace(0, domain_extent, num_points, endpoint=(num_spatial_dims == 3))", props=["C04"]),
  "M32_lowpass_strict": dict(file="exponax/_spectral.py", old="mask = jnp.linalg.norm(wavenumbers, axis=0) <= cutoff", new="mask = jnp.linalg.norm(wavenumbers, axis=0) < cutoff", props=["C04"]),
  "M33_modes_slices_odd": dict(file="exponax/_spectral.py", old="        left_slice = slice(None, nyquist_mode + 1)\n        right_slice = slice(-nyquist_mode, None)", new="        left_slice = slice(None, nyquist_mode)\n        right_slice = slice(-nyquist_mode, None)", props=["C04", "C15"]),
- "M34_wavenumber_leading_rfft": dict(file="exponax/_spectral.py", old="    other_wavenumbers = jnp.fft.fftfreq(num_points, 1 / num_points)\n\n    wavenumber_list", new="    other_wavenumbers = jnp.abs(jnp.fft.fftfreq(num_points, 1 / num_points))\n\n    wavenumber_list", props=["C04", "C01", "C05"]),
+ "M34_wavenumber_leading_rfft": dict(file="exponax/_spectral.py", old="    other_wavenumbers = jnp.round(jnp.fft.fftfreq(num_points, 1 / num_points))\n\n    wavenumber_list", new="    other_wavenumbers = jnp.abs(jnp.round(jnp.fft.fftfreq(num_points, 1 / num_points)))\n\n    wavenumber_list", props=["C04", "C01", "C05"]),
  # ---- C05
  "M35_derivative_layout": dict(file="exponax/_spectral.py", old="        field_der_hat = field_hat[:, None] * derivative_operator_fixed[None, ...]", new="        field_der_hat = field_hat[None, :] * derivative_operator_fixed[:, None]", props=["C05"]),
  "M36_poisson_sign": dict(file="exponax/_poisson.py", old="        return -self._inv_operator * f_hat", new="        return -self._inv_operator * f_hat if self.num_spatial_dims < 3 else self._inv_operator * f_hat", props=["C05"]),
